@@ -294,6 +294,7 @@ def check_c14(prog, rep, tier, cfg):
         rep.check(ok, R, "only-empty-lines-skipped", "consolidate_pass_lines drops lines for a reason other than `tokens.is_empty()`", instance={"skip_condition": "line.tokens.is_empty()"})
     # ---------------------------------------------------------------- C14.e who mutates line token lists
     contexts_end_only_by_their_predicate(prog, rep, "C14.g")
+    no_parsed_subtree_is_dropped(prog, rep, "C14.h")
     R = "C14.e"
     w1 = sorted({a[0].npath for a in prog.field_accesses(P + "LocalLogicalLine", "tokens") if a[3] in ("refmut", "write", "write-inner")})
     import layout as _layout
@@ -330,6 +331,80 @@ def check_c14(prog, rep, tier, cfg):
     if rep.check(dt is not None, R, "anchor:DirectiveTree::parse", "DirectiveTree::parse not found"):
         seq = sorted(c.callee.split("::")[-1] for c in dt.calls())
         rep.check(seq == ["enumerate", "iter", "map", "parse_next"], R, "tree-built-from-all-tokens", "DirectiveTree::parse no longer enumerates the full token slice: %s" % seq, instance={"chain": seq})
+
+
+def no_parsed_subtree_is_dropped(prog, rep, R):
+    """C14.h — the conditional-directive tree keeps everything that was parsed into it: the tree / section a builder function of
+    directive_tree.rs returns is, on every path to the caller's return (or to the next call that overwrites it), moved into the
+    structure under construction (a push, an aggregate, the return value).  A branch that is parsed and then dropped — e.g. a
+    `while let (tree, Some(kind)) = parse_next(..)` that forgets the tree when the file ends inside the section — takes all its
+    tokens, and the end-of-file token, out of every pass: they appear in no logical line."""
+    DT = "pasfmt_core::defaults::parser::directive_tree::"
+
+    def tree_ty(t):
+        t = t or ""
+        return ("directive_tree::DirectiveTree" in t or "directive_tree::Section" in t) and "&" not in t and "Vec<" not in t and "Iter" not in t and "*" not in t
+
+    def moves_of(b, L):
+        """[(bb, kind, target_local|None)] for every move of local L (whole, or its tree-typed field)"""
+        out = []
+
+        def is_move(op):
+            if op.get("k") != "move" or op["place"]["l"] != L:
+                return False
+            pr = op["place"]["p"]
+            if not pr:
+                return True
+            return all(pe["k"] == "field" for pe in pr) and tree_ty(pr[-1].get("ty", ""))
+        for bb, i, st in b.stmts():
+            if st["k"] != "assign":
+                continue
+            from facts import _rv_operands
+            for op in _rv_operands(st["rv"]):
+                if is_move(op):
+                    plain = st["rv"]["k"] == "use" and not st["dst"]["p"] and st["dst"]["l"] != 0
+                    out.append((bb, "local" if plain else "sink", st["dst"]["l"] if plain else None))
+        for c in b.calls():
+            if any(is_move(a) for a in c.args):
+                out.append((c.bb, "sink", None))
+        return out
+
+    def lost(b, L, def_bb, redefs, depth=0):
+        """a path description if the value in L (defined at the end of / in def_bb) can reach a return or its own re-definition unmoved"""
+        mv = moves_of(b, L)
+        blocks = {m[0] for m in mv}
+        goals = set(b.return_blocks()) | set(redefs)
+        starts = [def_bb] if def_bb in blocks else list(b.succ[def_bb])
+        for st0 in starts:
+            if st0 in blocks:
+                continue
+            if st0 in goals or b.can_reach_avoiding(st0, goals, blocks):
+                return "`%s` (bb%d) reaches the function's end or its next assignment without being moved anywhere" % (b.local_name(L) or "_%d" % L, def_bb)
+        if depth < 6:
+            for bb, kind, tgt in mv:
+                if kind == "local":
+                    r = lost(b, tgt, bb, [d[1] for d in b.defs.get(tgt, []) if d[0] in ("assign", "call") and d[1] != bb], depth + 1)
+                    if r:
+                        return r
+        return None
+    n = 0
+    for b in prog.bodies.values():
+        if not b.npath.startswith(DT):
+            continue
+        for c in b.calls():
+            cal = norm(c.t.get("resolved") or c.callee or "")
+            if not cal.startswith(DT) or not tree_ty(c.t.get("dst_ty", "")):
+                continue
+            L = c.t["dst"]["l"] if isinstance(c.t["dst"], dict) else None
+            if L is None or L == 0:
+                n += 1
+                continue
+            n += 1
+            r = lost(b, L, c.bb, [c.bb])
+            rep.check(r is None, R, "parsed-subtree-kept:%s<-%s" % (short(b.npath), cal.split("::")[-1]),
+                      "%s: the tree returned by %s can be dropped: %s — the tokens of that branch (up to the end of the file) are then in no pass and in no logical line"
+                      % (short(b.npath), cal.split("::")[-1], r), where=c.where(), instance={"in": short(b.npath), "builder": cal.split("::")[-1]})
+    rep.floor(R, "builder call sites in directive_tree.rs whose result must be kept", n, 4)
 
 
 def contexts_end_only_by_their_predicate(prog, rep, R):
